@@ -273,7 +273,10 @@ class Pool:
         n_rdm = n_rdm or self.n_rdm
         n_cond = n_cond or self.n_cond
         n_pair = n_cond * (n_cond - 1) // 2
-        v = 0.5 + self.rs.rand(n_rdm, n_pair) * 2
+        # squared euclidean distances of random points (+ jitter): valid input also for the Riemannian / Bures comparisons
+        pts = self.rs.randn(n_rdm, n_cond, n_cond + 2)
+        iu = np.triu_indices(n_cond, 1)
+        v = np.array([((p[:, None, :] - p[None, :, :]) ** 2).sum(-1)[iu] for p in pts]) / (n_cond + 2) + 0.01 * self.rs.rand(n_rdm, n_pair)
         if self.flavour == 'neg':
             v[:, ::3] -= 1.7
         if self.flavour == 'nan':
@@ -307,7 +310,7 @@ class Pool:
         obs = {'conds': self.dvals(labels), 'runs': self.dvals(runs)}
         ch = {'rois': self.dvals((['r1', 'r0', 'r1', 'r0', 'r2', 'r2', 'r0'])[:n_ch]),
               'vox': self.dvals([f'v{i}' for i in range(n_ch)])}
-        return X, {'subj': 's01', 'note': [1, 2]}, obs, ch
+        return X, {'subj': 's01', 'sess': 2}, obs, ch
 
     def dataset(self, n_rep=2, n_cond=4, n_ch=5, positive=False):
         from rsatoolbox.data import Dataset
@@ -901,7 +904,9 @@ def _s_compare_sigma(P, v, rec):
 
 @spec('rdm.pairs.pairs_by_percentile')
 def _s_pairs(P, v, rec):
-    return [dict(min=10, max=60), dict(min=0, max=100), None][min(v, 2)]
+    if P.flavour == 'plain':
+        return [dict(min=10, max=60, kwargs={'index': 2}), None][min(v, 1)]
+    return [dict(min=10, max=60, kwargs={'conds': 'c0'}), dict(min=0, max=100, kwargs={'grp': 2}), None][min(v, 2)]
 
 
 # ---- data -----------------------------------------------------------------------------------------------
@@ -1479,9 +1484,15 @@ def _s_ttests(P, v, rec):
     return d
 
 
-@spec('util.inference_util.ranksum_value_test')
+@spec('util.inference_util.ranksum_value_test', 'util.inference_util.ranksum_pair_test',
+      'util.inference_util.bootstrap_pair_tests')
 def _s_rsv(P, v, rec):
-    return [dict(comp_value=0), dict(comp_value=0.5), None][min(v, 2)]
+    if v >= 2:
+        return None
+    d = dict(evaluations=P.rs.rand(4, 3, 5))
+    if rec.name == 'ranksum_value_test':
+        d['comp_value'] = 0.5 * v
+    return d
 
 
 @spec('util.inference_util.pool_rdm', 'util.pooling.pool_rdm')
